@@ -158,3 +158,23 @@ Definition res_spec (c : res_case) : bool :=
   | None => true
   end.
 Definition res_check (c : res_case) : bool * bool := (res_agree c, res_spec c).
+
+(** the same, with what the control plane SENT (the messages as read back by the independent summariser) and the
+    faults injected into the lookups: the result must be exactly the endpoints the control plane lists for the cluster *)
+Record res_src := {
+  r2_case : res_case;
+  r2_cluster : option (res_pb cluster_pb);        (* None: no cluster was offered *)
+  r2_eds : list (res_pb cla_pb);
+  r2_fault_cl : bool; r2_fault_ep : bool
+}.
+Definition src_cluster (c : res_src) : got clres :=
+  if r2_fault_cl c then GErr
+  else match r2_cluster c with Some (RGood cp) => GOk (snd (decode_cluster cp)) | _ => GErr end.
+Definition src_eds (c : res_src) (n : string) : got (option epres) :=
+  if r2_fault_ep c then GErr
+  else match find (fun r => match r with RGood cla => String.eqb (cla_name cla) n | _ => false end) (rev (r2_eds c)) with
+       | Some (RGood cla) => GOk (parse_cla (Some cla))
+       | _ => GErr
+       end.
+Definition src_spec (c : res_src) : bool := insts_eqb (rs_obs (r2_case c)) (resolve (src_cluster c) (src_eds c)).
+Definition res_check2 (c : res_src) : bool * bool := (res_agree (r2_case c), res_spec (r2_case c) && src_spec c).
